@@ -18,6 +18,30 @@ func (fr *Frame) alloc(x ssa.Value, T types.Type, hint string) Val {
 	z := vc.zeroVal(T)
 	p := Val{Typ: pt, L: []string{r}}
 	fr.cur.heap = fr.storePtr(fr.cur.heap, p, T, z)
+	// ghost fields of a new object start at their zero value (0 / false): nothing can have spoken about
+	// an object that did not exist. Interface-level ghosts (iface.g) hang off the payload, i.e. this reference.
+	tn := vc.typeName(T)
+	var gkeys []string
+	for k := range vc.S.Ghosts {
+		gkeys = append(gkeys, k)
+	}
+	sortStrings(gkeys)
+	for _, k := range gkeys {
+		gf := vc.S.Ghosts[k]
+		if gf.Type != "iface" && gf.Type != tn {
+			continue
+		}
+		srt := specSort(gf.GType)
+		def := "0"
+		if srt == "Bool" {
+			def = "false"
+		} else if srt != "Int" {
+			continue
+		}
+		fam := "H_" + gf.Type + "." + gf.Name
+		vc.family(fam, "(Array Int "+srt+")")
+		vc.assume(fr.curR, "(= (select "+vc.lookup(fr.cur.heap, fam)+" "+r+") "+def+")")
+	}
 	return p
 }
 
